@@ -22,6 +22,12 @@ CLAIMS = {
          "recorded instruction (both tick-array encodings, Pinocchio handlers)", "as C01", "4 C05"),
  "C06": ("TLC model checking of StepsOK/SplitExact action properties on the toy instance + trace validation: per-step fee formula, protocol cut, growth "
          "fold, trader/vault deltas, Traded event, protocol-fee collection of every recorded swap", "as C01; needs the swap-step hook", "4 C06"),
+ "C07": ("TLC model checking of FeeUpper/FeeLower (ghost exact-share ledgers, accumulators started just below wrap-around) on the toy instance + trace validation: "
+         "the spec accumulates per recorded swap step the exact pro-rata share of every position whose range contains the segment tick (2^128-scaled interval) and checks "
+         "credited fees <= share and >= share - bounded rounding after every instruction", "the lower bound is 'bounded rounding' (one unit per in-range step / credit): a change that loses less is not reported", "4 C07"),
+ "C11": ("trace validation: AccrueRewards (floor(dt*emissions/liquidity); nothing at zero liquidity / uninitialized / 128-bit overflow; monotone timestamps) on every recorded "
+         "instruction; reward share ledgers (upper bound + bounded-rounding lower bound); collect = min(owed, vault); set-emissions settles first and needs a day of funding",
+         "no toy-scale model of rewards yet (the reward rules are evaluated on recorded executions only)", "4 C11"),
  "C08": ("trace validation: user/vault balance deltas of every recorded increase/decrease (Pinocchio v1+v2) equal the spec's exact TokenDeltas "
          "(up on deposit, down on withdrawal) and respect max/min; toy instance exercises the same TokenDeltas definition", "as C01", "4 C08"),
 }
